@@ -220,6 +220,15 @@ def E5_end_to_end(S, c1, P0, blen0, s1, s2, W, regex, end):
     return 2 + at
 
 
+def dry_runs():
+    for regex in (False, True):
+        for end in (0, 1):
+            yield 'E5_end_to_end', dict(S='abc', c1=1, P0='', blen0=0, s1='bc', s2='z', W=None, regex=regex, end=end)
+    yield 'E2_new_regex', dict(P='xa', blen=2, D='b', s1='ab', s2='q', W=None)
+    yield 'E2_new_exact', dict(P='xa', blen=2, D='b', s1='ab', s2='q', W=3)
+    yield 'E1_existing_region', dict(P='abcd', blen=1, W=3, lb=2)
+
+
 MANIFEST_ENTRY = {
     'level_text': 'Bounded symbolic verification that the incremental search (fresh-length offset, look-back '
                   'trimming, window selection and rebuilding) of the real Expecter/searcher code equals the naive '
